@@ -326,7 +326,9 @@ static void raw_write_file(const char *path, const unsigned char *d, size_t n) {
  *          1 = minimal power-loss image (directory ops up to the last sync, every file cut to its synced length)
  *          2 = directory ahead of data (all directory ops, files cut to their synced length)
  *          3 = torn tails (all directory ops; every file cut at a random byte between its synced length and its length)
- *          4 = random admissible image (random directory prefix >= synced, random cut per file) */
+ *          4 = random admissible image (random directory prefix >= synced, random cut per file)
+ *          5 = hole: the kill image, except that in every log one 32 KiB-aligned block lying wholly in the not yet fsynced
+ *              part of the file reads as zeros (delayed allocation: the size was updated, the data block never written) */
 static void materialise_from(const char *basedir, int n, int variant, const char *dst);
 static void materialise(int n, int variant, const char *dst) { materialise_from(NULL, n, variant, dst); }
 /* basedir != NULL: the journal describes what happened to a copy of that directory (nested crash during recovery) */
@@ -335,7 +337,7 @@ static void materialise_from(const char *basedir, int n, int variant, const char
   if (basedir) sfs_init_from_dir(&s, basedir); else sfs_init(&s);
   for (i = 0; i < n; i++) sfs_apply(&s, &J[i]);
   /* directory of the image: replay the first nops_keep directory operations */
-  if (variant == 0 || variant == 2 || variant == 3) nops_keep = s.nops;
+  if (variant == 0 || variant == 2 || variant == 3 || variant == 5) nops_keep = s.nops;
   else if (variant == 1) nops_keep = s.ops_synced;
   else nops_keep = s.ops_synced + (int)(crnd() % (uint64_t)(s.nops - s.ops_synced + 1));
   sfs_init(&d);
@@ -348,11 +350,21 @@ static void materialise_from(const char *basedir, int n, int variant, const char
   if (system(cmd) != 0) { /* ignore */ }
   for (i = 0; i < d.nd; i++) {
     sbody *b = &s.bodies[d.dir[i].id]; size_t len;
-    if (variant == 0) len = b->len;
+    if (variant == 0 || variant == 5) len = b->len;
     else if (variant == 1 || variant == 2) len = b->synced;
     else len = b->synced + (size_t)(crnd() % (uint64_t)(b->len - b->synced + 1));
     if (!strcmp(d.dir[i].name, "LOCK") || !strncmp(d.dir[i].name, "LOG", 3)) continue;
     snprintf(path, sizeof(path), "%s/%s", dst, d.dir[i].name);
+    if (variant == 5 && strstr(d.dir[i].name, ".log") != NULL) {
+      size_t first = (b->synced + 32767) / 32768, last = b->len / 32768;     /* aligned blocks [first, last) lie in [synced, len) */
+      if (last > first) {
+        size_t blk = first + (size_t)(crnd() % (uint64_t)(last - first));
+        uint8_t *copy = malloc(len ? len : 1);
+        memcpy(copy, b->d, len); memset(copy + blk * 32768, 0, 32768);
+        raw_write_file(path, copy, len); free(copy);
+        continue;
+      }
+    }
     raw_write_file(path, b->d, len);
   }
   sfs_free(&s);
